@@ -8,7 +8,9 @@ Kernel-level: for every pair of row lists and every pair of key functions the ha
 anti join algorithms (as coded) agree with the definitional nested evaluation; the cross
 product is symmetric up to re-projection; an inner join is a filter over the cross product.
 The anti join agrees with NOT EXISTS in full and with NOT IN only outside the NULL region
-(`_partial` + counterexample — the engine rewrites NOT IN to this anti join).
+(`_partial` + counterexample); since fix 38420538 the engine converts a user-written NOT IN to
+the anti join *plus a NULL guard* (`notInNullAware`), which is NOT IN in full
+(`C05_not_in_null_aware`).
 -/
 namespace VibeProof.C05
 open VibeProof VibeProof.Join
@@ -198,6 +200,41 @@ theorem C05_anti_not_in_counterexample : ¬ C05_anti_eq_not_in_full := by
 /-- the second excluded region: a NULL probe against a non-empty NULL-free subquery -/
 example : hashAnti (fun r => r.headD .null) (fun r => r.headD .null) [[.null]] [[.int 2]] = [[.null]] ∧
     filter3 (fun l => TV.not3 (inTV (l.headD .null) ([[Value.int 2]].map (fun r => r.headD .null)))) [[Value.null]] = [] := by
+  decide
+
+/-- the repaired conversion (fix 38420538): anti join + guard is exactly the TRUE-set of
+`x NOT IN (S)` — for every key function and every pair of row lists, NULLs included -/
+theorem C05_not_in_null_aware (kl kr : Row → Value) (left right : List Row) :
+    notInNullAware kl kr left right = filter3 (fun l => TV.not3 (inTV (kl l) (right.map kr))) left := by
+  unfold notInNullAware
+  rw [C05_anti_eq_not_exists, List.filter_filter]
+  unfold filter3
+  apply List.filter_congr
+  intro l _
+  have hmap : (right.map kr).any (fun v => eqTrue (kl l) v) = right.any (fun r => eqTrue (kl l) (kr r)) := by
+    rw [List.any_map]; rfl
+  have hnull : (right.map kr).any (fun v => decide (v = Value.null)) = right.any (fun r => decide (kr r = Value.null)) := by
+    rw [List.any_map]; rfl
+  by_cases he : right = []
+  · subst he; simp [inTV, TV.not3]
+  · have hne : right.isEmpty = false := by cases right <;> simp_all
+    have hne' : (right.map kr).isEmpty = false := by cases right <;> simp_all
+    simp only [inTV, hne, hne', hmap, hnull, Bool.or_false, Bool.false_eq_true, if_false]
+    by_cases hany : right.any (fun r => eqTrue (kl l) (kr r)) = true
+    · simp [hany, TV.not3]
+    · have hany' : right.any (fun r => eqTrue (kl l) (kr r)) = false := by simpa using hany
+      by_cases hx : kl l = .null
+      · rw [hx] at hany'
+        simp [hany', hx, TV.not3]
+      · by_cases hn : right.any (fun r => decide (kr r = Value.null)) = true
+        · simp [hany', hx, hn, TV.not3]
+        · have hn' : right.any (fun r => decide (kr r = Value.null)) = false := by simpa using hn
+          simp [hany', hx, hn', TV.not3]
+
+/-- non-vacuity: the two regions where the plain anti join was wrong -/
+example : notInNullAware (fun r => r.headD .null) (fun r => r.headD .null) [[.int 1], [.null], [.int 2]] [[.int 1], [.null]] = [] ∧
+    notInNullAware (fun r => r.headD .null) (fun r => r.headD .null) [[.int 1], [.null], [.int 2]] [[.int 1]] = [[.int 2]] ∧
+    notInNullAware (fun r => r.headD .null) (fun r => r.headD .null) [[.int 1], [.null]] [] = [[.int 1], [.null]] := by
   decide
 
 /-! ### join order and join syntax -/
